@@ -71,6 +71,31 @@ func collidingStrings(n int) []string {
 	return out
 }
 
+// collidingPrefixPair returns T and S = T + suffix whose dedup-table buckets coincide.
+func collidingPrefixPair() (string, string) {
+	for i := 0; i < 2000000; i++ {
+		t := fmt.Sprintf("key-%d", i)
+		s := t + "-with-a-longer-suffix"
+		if simdjson.VerifMemHash([]byte(t)) == simdjson.VerifMemHash([]byte(s)) {
+			return t, s
+		}
+	}
+	return "key-x", "key-x-with-a-longer-suffix"
+}
+
+func collidingSameLength() (string, string) {
+	seen := map[uint64]string{}
+	for i := 0; i < 2000000; i++ {
+		t := fmt.Sprintf("same-%07d", i)
+		h := simdjson.VerifMemHash([]byte(t))
+		if o, ok := seen[h]; ok {
+			return o, t
+		}
+		seen[h] = t
+	}
+	return "same-a", "same-b"
+}
+
 func c11Tapes(w *W) []*serTape {
 	cp := Cfg{hasAVX512, true}
 	var ts []*serTape
@@ -93,6 +118,17 @@ func c11Tapes(w *W) []*serTape {
 	add("numbers", pj, docs, false)
 	pj, docs = mustParse(w, `{"msg":"in message only","k":["x","yy",""],"esc":"a\nb"}`, false, Cfg{hasAVX512, false})
 	add("nocopy", pj, docs, false)
+	// strings that fall into the same bucket of the serializer's dedup table (found with the
+	// package's own hash, which is seeded per process): a string and its own extension, and
+	// two strings of equal length. One tape ends with the long string, the other stores the
+	// short one at the very same buffer offset, so whatever an earlier Serialize left behind
+	// the current end of the scratch buffer lines up with it.
+	t1, s1 := collidingPrefixPair()
+	p1, q1 := collidingSameLength()
+	pj, docs = mustParse(w, fmt.Sprintf(`["pad",%q]`, s1), false, cp)
+	add("collide-long", pj, docs, false)
+	pj, docs = mustParse(w, fmt.Sprintf(`["pad",%q,%q,%q,%q,%q]`, t1, s1, p1, q1, p1), false, cp)
+	add("collide-prefix-then-long", pj, docs, false)
 	// big tapes
 	pj, docs = mustParse(w, "["+strings.Repeat("null,", 70000)+"true]", false, cp)
 	add("70k-tags", pj, docs, true)
@@ -294,7 +330,7 @@ func c11Body(w *W) {
 		}
 	}
 	depth := 3
-	w.Note(fmt.Sprintf("histories: every sequence of <= %d operations over %d ops {Serialize(7 small tapes), CompressMode(4), Deserialize(last blob | any of %d pre-made blobs, dst in {nil, reused, previously larger})} on one reused Serializer and destination; each history runs on a fresh Serializer (prefix replay)", depth, len(alpha), len(alpha)-len(small)-4-3))
+	w.Note(fmt.Sprintf("histories: every sequence of <= %d operations over %d ops {Serialize(9 small tapes incl. two with strings colliding in the dedup table), CompressMode(4), Deserialize(last blob | any of %d pre-made blobs, dst in {nil, reused, previously larger})} on one reused Serializer and destination; each history runs on a fresh Serializer (prefix replay)", depth, len(alpha), len(alpha)-len(small)-4-3))
 	report := func(hist []serOp, what, fp string) {
 		var parts []string
 		for _, o := range hist {
@@ -369,6 +405,44 @@ func c11Body(w *W) {
 				}
 			}
 		}
+	}
+	// flush-edge sweeps: 16-byte value records (strings, flagged floats) and 8-byte ones at
+	// every alignment around the 64 KiB value-block flush, and tag counts around the 64 Ki
+	// tag-block flush
+	w.Note("flush-edge sweeps: k integers (k = 8170..8200) followed by a string, an overflowed-integer float, a string and more integers, so that a 16-byte value record starts at every offset -176..+64 around the 64 KiB value flush; and arrays of k nulls for k = 65525..65545 around the 64 Ki tag flush; each serialized in modes none and default and read back")
+	sweep := func(name string, text string) {
+		w.res.States++
+		if !w.Mine() || w.Expired() {
+			return
+		}
+		pj, docs := mustParse(w, text, false, Cfg{hasAVX512, true})
+		t := &serTape{name: name, pj: pj, docs: docs, exact: renderDocs(docs, renderExact), big: true}
+		ts2 := append(append([]*serTape(nil), ts...), t)
+		for _, m := range []int{0, 2} {
+			h := []serOp{{Kind: 1, A: m}, {Kind: 0, A: len(ts2) - 1}, {Kind: 2, A: -1, Dst: 0}}
+			w.res.Transitions += 3
+			w.res.Evaluations++
+			w.res.Validated++
+			if what, fp := runSerHistory(ts2, blobs, h, nil); what != "" {
+				w.Violate(Violation{Harness: "C11-flush-edge", Fingerprint: "C11/flush-edge/" + fp, What: name + ": " + what, Case: []byte(name), CaseText: name + " mode " + modeNames[m], Config: "asm"})
+			}
+		}
+	}
+	for k := 8170; k <= 8200; k++ {
+		var sb strings.Builder
+		sb.WriteByte('[')
+		for i := 0; i < k; i++ {
+			fmt.Fprintf(&sb, "%d,", i)
+		}
+		sb.WriteString(`"boundary string",123456789012345678901234567890,"second",`)
+		for i := 0; i < 40; i++ {
+			fmt.Fprintf(&sb, "%d,", -i)
+		}
+		sb.WriteString("0]")
+		sweep(fmt.Sprintf("value-flush-edge-%d", k), sb.String())
+	}
+	for k := 65525; k <= 65545; k++ {
+		sweep(fmt.Sprintf("tag-flush-edge-%d", k), "["+strings.Repeat("null,", k)+"1]")
 	}
 	w.Sample("history sample: CompressMode(fast); Serialize(deleted); Deserialize(blob[numbers/best], reused dst)")
 
